@@ -303,7 +303,8 @@ func runC04(r *vk.Run) {
 	})
 
 	r.Phase("stress", r.N(20, 3000), func(c *vk.Case) {
-		inv := genMergeInventory(c.Rng, 64, 12)
+		// more containers than CPUs, and not a round number of them (work split per CPU has a remainder)
+		inv := genMergeInventory(c.Rng, vk.Pick(c.Rng, []int{17, 23, 31, 33, 47, 64, 65, 70}), 12)
 		ref := ""
 		for k := 0; k < 3; k++ {
 			if !runOrder(c, inv, nil, &ref) {
